@@ -447,4 +447,10 @@ Fixpoint cfg_ready_t (vs : vschema) (t : stree) : bool :=
   | TChoice _ _ cs => forallb (cfg_ready_t vs) cs
   | TCase _ _ ch => forallb (cfg_ready_t vs) ch
   end.
-Definition cfg_ready (vs : vschema) : bool := forallb (cfg_ready_t vs) (vs_tree vs).
+(* ... and no unique statement of a config true list refers to a config false leaf (libyang evaluates such a unique on the
+   schema default of the leaf also with LYD_VALIDATE_NO_STATE, where the default nodes of config false leaves are not
+   created; cfg_view drops those defaults) *)
+Definition cfg_uniq_ready (vs : vschema) : bool :=
+  forallb (fun u => negb (si_config (info vs (fst u))) ||
+                    forallb (forallb (fun p => si_config (info vs (last p 0)))) (snd u)) (vs_uniq vs).
+Definition cfg_ready (vs : vschema) : bool := forallb (cfg_ready_t vs) (vs_tree vs) && cfg_uniq_ready vs.
